@@ -78,9 +78,9 @@ class P(flow.Plan):
                 elif x < 0.92:
                     descs.append({"act": "flush"})
                 else:
-                    descs.append({"act": "teardown"})
+                    descs.append({"act": "teardown", "nowait": rng.random() < 0.4})
             if rng.random() < 0.5:
-                descs.append({"act": rng.choice(["flush", "teardown"])})
+                descs.append({"act": rng.choice(["flush", "teardown"]), "nowait": rng.random() < 0.4})
             streams = [k + 1 for k, kind in enumerate(kinds) if kind in ("binary", "text")]
             if streams and rng.random() < 0.3:
                 # the user closes a stream of their own, then tears the builder down (added after seed C14f: teardown flushed
